@@ -60,6 +60,25 @@ fn frequency_config(shape: Shape, weights: &[u32], draws: u64, seed: u64, rep: &
 fn drive(sel: &dyn AnySel, pop: &Pop, weights: &[u32], draws: u64, cfg: &str, rng: &mut TraceRng, rep: &mut Report) {
     let k = weights.len();
     let total: u64 = weights.iter().map(|w| u64::from(*w)).sum();
+    // per-selection invariants under hostile streams (all zeros / all ones / alternating ...):
+    // exactly one member is used, never a zero-weight one, the result is that member's
+    for mut hr in TraceRng::hostile_variants(fnv_str(cfg) % 1000) {
+        for _ in 0..6 {
+            take_leaf_log();
+            let out = sel.sel(pop, &mut hr);
+            let log = take_leaf_log();
+            rep.eval();
+            let ok = if total == 0 {
+                log.is_empty() && matches!(&out, SelOut::Err(_))
+            } else {
+                log.len() == 1 && weights[log[0]] > 0 && out == SelOut::Member(log[0])
+            };
+            if !ok {
+                rep.violation("C13/delegation-under-extreme-stream", || json!({"config": cfg, "weight_total": total, "members_called": log, "observed": format!("{out:?}")}));
+                return;
+            }
+        }
+    }
     let mut used = vec![0u64; k];
     for d in 0..draws {
         take_leaf_log();
